@@ -41,7 +41,7 @@ func (EpochsEngine) Describe() simcore.Description {
 		Real:        []string{"x/epochs keeper (BeginBlocker, AddEpochInfo, GetEpochInfo, hooks dispatch)", "x/epochs types.MultiEpochHooks / panicCatchingEpochHook", "osmoutils.ApplyFuncIfNoError (cache context, panic recovery, out-of-gas re-panic)", "cosmossdk.io/store rootmulti + cachemulti + gaskv over MemDB, sdk.Context"},
 		Stub:        []string{"CometBFT/BaseApp: the simulator supplies header time/height and discards the block branch when BeginBlocker panics", "subscribers: simulator-owned EpochHooks implementations (the real subscribers are exercised by the app-level engines)"},
 		Rule:        "one run = 1-4 timers (durations 1ns..1 week, start before/at/after the first block, one possibly added mid-run) and 1-4 subscribers; steps are blocks whose time advance is drawn from a mixture (tiny, zero, exactly to / 1ns around an epoch end, multi-epoch gaps); each subscriber's outcome at each signal (ok / error / panic / out-of-gas, with writes before and after an inner committed branch) is a function of the plan's salt; after every block timers, signal log and subscriber state are compared with an arithmetic reference.",
-		Assumptions: []string{"out-of-gas inside a subscriber is produced by a finite gas meter on the subscriber's context (the gas-metered store panics), or by panicking with the SDK's ErrorOutOfGas value", "when BeginBlocker panics the block's state branch is discarded, as BaseApp does"},
+		Assumptions: []string{"out-of-gas inside a subscriber is produced by a finite gas meter on the subscriber's context (the gas-metered store panics), by using up the finite meter the caller put on the block context with ordinary metered writes, or by panicking with the SDK's ErrorOutOfGas value", "when BeginBlocker panics the block's state branch is discarded, as BaseApp does", "a block that is first executed speculatively runs BeginBlocker for the same header on another branch of the committed state, which is dropped; the keeper object is the same"},
 	}
 }
 
